@@ -387,6 +387,43 @@ def shadow_rebind(chk, prog, files, allowed=()):
                                     chk.finding("SHADOW-REBIND.memo", rel, g.qname, "self.%s cached: %s" % (x.attr, stmt_text(s)[:90]),
                                                 "a method of the mutable ndarray subclass %s stores a derived value in `self.%s`: item assignment and in-place arithmetic on the array "
                                                 "cannot invalidate it, so it goes stale" % (c.name, x.attr), line=s.lineno)
+            # a value COMPUTED from the data (a norm, a sum, a product ...) stored by __new__: frozen at construction, stale after any in-place change of the array
+            # (the array itself, a basic-slicing view of it, its shape / length and options that do not depend on the data are not computed values)
+            g = c.methods.get("__new__")
+            if g is not None:
+                data_params = [p for p in g.params[1:]]
+                taint = _tainted_by_params(g.node, data_params)
+                buffers = {ast.unparse(s.value) for s in ast.walk(g.node) if isinstance(s, ast.Assign) and len(s.targets) == 1 and isinstance(s.targets[0], ast.Attribute)
+                           and isinstance(s.value, ast.Name) and s.value.id in taint}
+
+                def computed(v):
+                    if isinstance(v, ast.Name):
+                        if v.id not in taint:
+                            return False
+                        if v.id in buffers:
+                            return False
+                        # a tainted local: look at what it was computed from
+                        defs = [s.value for s in ast.walk(g.node) if isinstance(s, ast.Assign) and any(isinstance(t, ast.Name) and t.id == v.id for t in s.targets)]
+                        return any(_reduces(d) for d in defs)
+                    if isinstance(v, ast.IfExp):
+                        return computed(v.body) or computed(v.orelse)
+                    return _reduces(v) and any(isinstance(x, ast.Name) and x.id in taint for x in ast.walk(v))
+
+                def _reduces(v):
+                    return any(isinstance(x, ast.Call) and ast.unparse(x.func).split(".")[-1] in ("norm", "sum", "dot", "prod", "mean", "trace", "det", "sqrt", "max", "min", "arccos",
+                                                                                                  "arctan2", "vdot", "inner") for x in ast.walk(v))
+                for s_ in ast.walk(g.node):
+                    if isinstance(s_, ast.Assign) and len(s_.targets) == 1 and isinstance(s_.targets[0], ast.Attribute) and isinstance(s_.targets[0].value, ast.Name) \
+                            and s_.targets[0].value.id not in ("self", "cls"):
+                        n += 1
+                        attr = s_.targets[0].attr
+                        readers = [h.qname for h in c.methods.values() if h.name not in ctor_names
+                                   and any(isinstance(x, ast.Attribute) and x.attr == attr and isinstance(x.ctx, ast.Load) and isinstance(x.value, ast.Name) and x.value.id == (h.params[0] if h.params else "self")
+                                           for x in ast.walk(h.node))]
+                        if computed(s_.value) and readers:
+                            chk.finding("SHADOW-REBIND.derived", rel, g.qname, "%s computed from the data at construction" % stmt_text(s_)[:80],
+                                        "`%s` keeps a value computed from the array when the object is built and %s read(s) it later: in-place changes of the array (normalize(), "
+                                        "item assignment, `*=`) cannot refresh it, so those methods answer for the old data" % (attr, ", ".join(readers[:3])), line=s_.lineno)
             # constructors may initialise a cache slot, but a slot that a method later reads-and-returns is a memo
     chk.counts["SHADOW-REBIND.stores"] = chk.counts.get("SHADOW-REBIND.stores", 0) + n
     return n
@@ -622,9 +659,10 @@ class _LintFixture(_np.ndarray):
         obj = super().__new__(cls, 4)
         obj.A = q
         obj.mode = 'x'
+        obj._nrm = _np.linalg.norm(q)
         return obj
     def is_ok(self):
-        return True
+        return self._nrm > 0
     def latched(self, sample):
         if self.ref is None:
             self.ref = sample * 2
@@ -702,6 +740,7 @@ class _Sink:
 
     def finding(self, rule, *a, **k):
         self.rules.add(rule.split(".")[0])
+        self.rules.add(rule)
 
     def record(self, *a, **k):
         pass
@@ -759,7 +798,7 @@ def self_test(chk, prog):
         signature(sink, p5, [FIXTURE_HOST])
     except Exception as e:
         chk.error("lint SIGNATURE crashed on its positive example: %s: %s" % (type(e).__name__, e))
-    for name in ALL:
+    for name in list(ALL) + ["SHADOW-REBIND.memo", "SHADOW-REBIND.derived"]:
         fired = name in sink.rules
         chk.canary("lint %s fires on its embedded positive example" % name, fired, "" if fired else "no finding on the fixture")
 
@@ -887,6 +926,8 @@ def unit_guard(chk, prog, files):
 GATE_LIMIT = {"C01": 1e-6, "C02": 1e-6, "C07": 1e-6, "C09": 1e-6, "C10": 1e-6, "C11": 1e-6, "C12": 1e-6, "C18": 1e-6, "C19": 1e-6, "C03": 1e-6, "C04": 1e-6}
 
 
+SCALE_SYMS = {"qs1", "qs2"}          # free positive magnitudes of the accelerometer / magnetometer samples in the scale-invariance obligations
+SCALE_FREE = {"C04"}                  # properties that promise "whatever the magnitudes of the measured vectors"
 PAIR_LIMIT = 1e-4      # relative rotation angle (rad) below which the metric closed forms need not be resolved
 
 
@@ -952,6 +993,24 @@ def gate_report(chk, pid):
         try:
             names = sorted(P.atom(a).name for a in (lhs - rhs).atoms() if P.atom(a).kind == "sym")
         except Exception:
+            continue
+        # SCALE-GATE: an absolute/relative tolerance test against a constant on a quantity that carries one of the free magnitude symbols the
+        # scale-invariance obligations put on the samples (qs1, qs2): what it accepts depends on the units of the measurement
+        scale = [nm for nm in names if nm in SCALE_SYMS]
+        if scale and pid in SCALE_FREE:
+            try:
+                rc = rhs.const() if hasattr(rhs, "const") else None
+            except Exception:
+                rc = None
+            key = ("scale", fn, str(lhs)[:80])
+            if rc is not None and key not in seen:
+                seen.add(key)
+                rel, _, q = fn.partition("::")
+                why = ("the tolerance test isclose(%s, %s) (rtol=%g, atol=%g) in %s is made on a quantity proportional to the magnitude of the raw sample(s) (free scale %s): for small "
+                       "enough magnitudes -- another unit system, a weak field -- it is true for perfectly valid, well-conditioned samples, and the answer behind it replaces the estimate"
+                       % (str(lhs)[:60], rhs, tol[0], tol[1], q, ", ".join(scale)))
+                chk.record("SCALE-GATE", "%s::isclose(%s, %s)" % (fn, str(lhs)[:50], rhs), "tolerance tests are made on normalised quantities", verdict="VIOLATION", detail=why)
+                chk.finding("SCALE-GATE", rel, q, "isclose gate on an un-normalised quantity", why)
             continue
         suffix = "wxyz" if all(nm[-1:] in "wxyz" for nm in names) else ("0123" if all(nm[-1:] in "0123" for nm in names) else None)
         if suffix is None or not names:
@@ -1412,6 +1471,34 @@ def sign_canon(chk, prog, files):
                     chk.finding("SIGN-CANON", f.module.rel, f.qname, "%s scaled by %s" % (other, ast.unparse(call)),
                                 "`%s` is multiplied by the sign of its own component `%s`: when that component is exactly 0 (a valid value: half-turns, axis-aligned poses) "
                                 "np.sign gives 0 and the whole vector is annihilated" % (other, ast.unparse(arg)), line=call.lineno)
+        # whole vectors / rows scaled by a factor built from np.sign (directly, through a local, cumprod / prod): X *= sign(<dot products>) ... the factor is 0 when
+        # its argument is exactly 0 (orthogonal neighbours, an exact half-turn between samples) and then wipes out every row it multiplies
+        signed = set()
+        for _ in range(2):
+            for s in ast.walk(f.node):
+                if isinstance(s, ast.Assign) and len(s.targets) == 1 and isinstance(s.targets[0], ast.Name):
+                    if any(True for _c in sign_args(s.value)) or any(isinstance(x, ast.Name) and x.id in signed for x in ast.walk(s.value)):
+                        # a sign times a magnitude (0.5*sign(d)*sqrt(.)) is the component idiom, not a factor
+                        if not any(isinstance(x, ast.Call) and ast.unparse(x.func).split(".")[-1] == "sqrt" for x in ast.walk(s.value)):
+                            signed.add(s.targets[0].id)
+
+        def whole(t):
+            if isinstance(t, (ast.Name, ast.Attribute)):
+                return True
+            if isinstance(t, ast.Subscript):
+                first = t.slice.elts[0] if isinstance(t.slice, ast.Tuple) else t.slice
+                return isinstance(first, ast.Slice)
+            return False
+        for s in ast.walk(f.node):
+            if isinstance(s, ast.AugAssign) and isinstance(s.op, ast.Mult) and whole(s.target):
+                uses = any(True for _c in sign_args(s.value)) or any(isinstance(x, ast.Name) and x.id in signed for x in ast.walk(s.value))
+                own = any(isinstance(a_, ast.Subscript) and base_of(a_) == base_of(s.target) and not isinstance(a_.slice, ast.Slice) for _c, a_ in sign_args(s.value))
+                if uses and not own:
+                    n += 1
+                    chk.finding("SIGN-CANON.rows", f.module.rel, f.qname, "%s" % stmt_text(s)[:80],
+                                "whole rows of `%s` are multiplied by a factor built from np.sign(...): np.sign is 0 when its argument is exactly 0 (orthogonal consecutive "
+                                "quaternions, an exact half-turn between samples), and the zero factor annihilates the rows it reaches (and every later one through a cumulative product)"
+                                % base_of(s.target), line=s.lineno)
     chk.counts["SIGN-CANON.products"] = chk.counts.get("SIGN-CANON.products", 0) + n
     return n
 
